@@ -278,6 +278,30 @@ pub fn c18(a: &Args) {
         let cli_line = String::from_utf8_lossy(&c1).lines().collect::<Vec<_>>().join(";");
         if cli_line != String::from_utf8_lossy(&s1).trim_end() { out.fail("cli-vs-stream-sample", &f.text(), &format!("urs -s {seed} -n 7 vs random l 7 s {seed}"), &cli_line, String::from_utf8_lossy(&s1).trim_end()); }
     }
+    // large amounts (1 001, 2 500, 10 000 samples): the same list from two loads and from two runs of the binary
+    {
+        let mut picked: Vec<GenFile> = Vec::new();
+        let mut r7 = Rng::new(a.seed ^ 0x19);
+        let cfg7 = SpaceCfg { g1_max_n: 3, g1_rate: 0.0, random_d4: if a.thorough() { 24 } else { 6 }, random_c2d: if a.thorough() { 8 } else { 2 }, min_n: 4, max_n: 8 };
+        for_each_model(&cfg7, &mut r7, |file, tt| { if tt.count() >= 4 { picked.push(file.clone()); } });
+        for (i, file) in picked.iter().enumerate() {
+            let k = [1001usize, 2500, 10000][i % 3];
+            let (Ok(mut d1), Ok(mut d2)) = (load(file), load(file)) else { continue };
+            out.eval(Some(format!("{}|urs {k}", file.text())));
+            out.count("large_amount_reloads", 1);
+            let (s1, s2) = (d1.uniform_random_sampling(&[], k, 5), d2.uniform_random_sampling(&[], k, 5));
+            if s1 != s2 || s1.as_ref().map(|s| s.len()) != Some(k) { out.fail("reload-sample-differs", &file.text(), &format!("urs n {k} s 5 on two loads -t {}", file.n), "two different lists (or not k samples)", "the same list of k samples"); }
+            let s3 = d1.uniform_random_sampling(&[], k, 5);
+            if s3 != s1 { out.fail("reload-sample-differs", &file.text(), &format!("urs n {k} s 5 twice on one instance -t {}", file.n), "two different lists", "the same list"); }
+            if i < 3 {
+                let mp = format!("{}/large_amount_model.nnf", a.out);
+                std::fs::write(&mp, file.text()).unwrap();
+                let run = || { let mut c = Command::new(bin_path()); c.arg("-i").arg(&mp); if matches!(file.fmt, Fmt::D4) { c.arg("-t").arg(file.n.to_string()); } c.args(["urs", "-s", "5", "-n", &k.to_string()]).stderr(Stdio::null()).output().map(|o| o.stdout).unwrap_or_default() };
+                let (o1, o2) = (run(), run());
+                if o1 != o2 || o1.is_empty() { out.fail("cli-urs-not-reproducible", &file.text(), &format!("CLI urs -s 5 -n {k} twice -t {}", file.n), "two different outputs", "the same output"); }
+            }
+        }
+    }
     // the same for models whose features carry large numbers (127.., 255..): every load gives the same array and the same seeded sample
     {
         let mut picked: Vec<GenFile> = Vec::new();
